@@ -653,10 +653,12 @@ def check_expr_insertion(root, step, parent, field, n, old, ctx) -> bool:
             own = olines[ln - 1].lstrip().startswith('#')
 
             if own and (prev_end is None or ln > prev_end) and (next_start is None or ln < next_start):
-                if leading_selected:
-                    selected[t[1]] += 1  # the comment block directly before the insertion point is what the (default) trivia option selects for overwriting (docs d06)
+                # own-line comments next to the insertion point: before it when inserting before an element (leading part of the option), after it
+                # when appending (trailing part of the option: 'block' / 'all' select comment lines)
+                if (leading_selected if pos < n else trivia_split(ap.opts.get('trivia', True))[1] in ('block', 'all')):
+                    selected[t[1]] += 1  # what the trivia option selects for overwriting (docs d06)
                 else:
-                    kinds.add('own_line_comment_before_insertion_point')
+                    kinds.add('own_line_comment_before_insertion_point' if pos < n else 'own_line_comment_after_appended_element')
             elif not own and pos == n and prev_end is not None and prev_end <= ln <= (cont_end or ln):
                 kinds.add('line_comment_of_last_element_on_append')  # after the last element (and its closing parentheses / trailing comma), before the container ends
             elif not own and prev_end is not None and ln == prev_end:
